@@ -171,10 +171,20 @@ def run_shard(shard: dict, ctx, res, only=None) -> None:
                     chk.check("Filterbank.dedisperse", [start, n_eff, dmv], ts.header, shape=(ts.data.size, 1), src=[list(range(C))], start=start, dm=dmv)
 
                 guard("Filterbank.dedisperse", [start, n_eff, dmv], f_dd)
+            def f_ddn(start=start, rk=rk, n_eff=n_eff):
+                # opposite DM sign: all delays <= 0, the series starts -min(delay) samples after `start` (time measured at the first channel)
+                d = np.asarray(H.get_dmdelays(-dm_pos))
+                if d.max() > 0 or -int(d.min()) >= n_eff:
+                    return
+                ts = fil.dedisperse(-dm_pos, **rk)
+                chk.check("Filterbank.dedisperse(negative delays)", [start, n_eff], ts.header, shape=(ts.data.size, 1), src=[list(range(C))],
+                          start=start - int(d.min()), dm=-dm_pos)
+
+            guard("Filterbank.dedisperse(negative delays)", [start, n_eff], f_ddn)
             for c in range(C):
                 def f_rc(c=c, start=start, rk=rk, n_eff=n_eff):
                     ts = fil.read_chan(c, **rk)
-                    chk.check("Filterbank.read_chan", [c, start, n_eff], ts.header, shape=(ts.data.size, 1), src=[[c]], start=start)
+                    chk.check("Filterbank.read_chan", [c, start, n_eff], ts.header, shape=(ts.data.size, 1), src=[[c]], start=start, dm=0.0)
 
                 guard("Filterbank.read_chan", [c, start, n_eff], f_rc)
 
